@@ -432,7 +432,7 @@ pub struct Agg {
     pub exhaustive: BTreeMap<String, u64>,
     pub samples: Vec<Value>,
     pub failures: Vec<vrt::Failure>,
-    pub panicked: Vec<(String, String)>,
+    pub panicked: Vec<(String, String, Option<(String, u32)>)>,
 }
 
 impl Agg {
@@ -454,7 +454,7 @@ impl Agg {
             }
             self.failures.extend(e.failures.iter().cloned());
             if let Some(p) = &e.panicked {
-                self.panicked.push((e.name.clone(), p.clone()));
+                self.panicked.push((e.name.clone(), p.clone(), e.panic_at.clone()));
             }
         }
     }
